@@ -192,7 +192,7 @@ impl Adapter for CbAd {
             let mut v = vec![json!({"e":"op","name":"force_open"}), json!({"e":"advance","d":wait})];
             let rounds = if size == Size::Quick { 14 } else { 24 };
             for _ in 0..rounds {
-                match rng.weighted(&[5, 3, 1, 4, 3, 1]) {
+                match rng.weighted(&[5, 3, 1, 4, 3, 1, 1]) {
                     0 => {
                         let k = 1 + rng.below(perm + 2);
                         for _ in 0..k {
@@ -221,7 +221,13 @@ impl Adapter for CbAd {
                         v.push(json!({"e":"drop","c":c}));
                     }
                     4 => v.push(json!({"e":"advance","d": if rng.pct(75) { wait } else { 1 }})),
-                    _ => v.push(json!({"e":"op","name":"force_open"})),
+                    5 => v.push(json!({"e":"op","name":"force_open"})),
+                    _ => {
+                        // manual recovery in the middle of a storm, then tripped again
+                        v.push(json!({"e":"op","name": if rng.pct(70) { "reset" } else { "force_closed" }}));
+                        v.push(json!({"e":"op","name":"force_open"}));
+                        v.push(json!({"e":"advance","d": wait}));
+                    }
                 }
             }
             return Some(v);
